@@ -122,6 +122,7 @@ def run(ctx):
     ctx.guard('tables', tables, ctx, ss)
     ctx.guard('ageing_and_disease_pars', ageing_and_disease_pars, ctx, ss)
     ctx.guard('routine_delivery', routine_delivery, ctx, ss)
+    ctx.guard('mixing_pools', mixing_pools, ctx, ss)
 
 
 def tables(ctx, ss):
@@ -197,6 +198,32 @@ def routine_delivery(ctx, ss):
             w = dict(unit=unit, dt=dt, got=got, annual_converted=want)
             if unit != 'year': w['finding_key'] = 'routine-prob-unit-blind'
             ctx.violation(f'routine delivery with unit={unit}, dt={dt}: annual coverage {p} applied as {got} per step; converted to the step length it is {want:.6f}', w)
+
+
+def mixing_pools(ctx, ss):
+    """The per-step transmission probability of every pool of a MixingPools container is the container's beta compounded over the container's own step,
+    in the unit the beta was given in."""
+    rng = ctx.rng
+    grid = [(dict(unit='year', dt=1.0), dict(unit='day'), {}), (dict(unit='year', dt=0.5), {}, dict(dt=0.25)), (dict(unit='day', dt=7.0, start='2000-01-01'), dict(unit='week'), {}),
+            (dict(unit='year', dt=0.25), dict(unit='year'), {}), (dict(unit='week', dt=1.0, start='2000-01-01'), dict(unit='day'), dict(dt=2.0)), (dict(unit='year', dt=1.0), {}, {})]
+    for simkw, betakw, contkw in grid:
+        b = rng.choice([0.01, 0.002, 0.05])
+        try:
+            mps = ss.MixingPools(beta=ss.beta(b, **betakw), contacts=np.array([[1.0, 2.0], [2.0, 1.0]]), src={'a': ss.AgeGroup(0, 30), 'b': ss.AgeGroup(30, None)},
+                                 dst={'a': ss.AgeGroup(0, 30), 'b': ss.AgeGroup(30, None)}, **contkw)
+            sim = ss.Sim(n_agents=60, diseases=ss.SIS(), networks=mps, dur=3, verbose=0, **simkw); sim.init()
+        except Exception as E:
+            ctx.dist(f'mixing pools config rejected ({type(E).__name__})'); continue
+        m = sim.networks[0]
+        bunit = betakw.get('unit', m.t.unit)
+        step_in_beta_units = float(m.t.dt) * UD[m.t.unit] / UD[bunit]
+        want = 1 - (1 - b) ** step_in_beta_units
+        ctx.count(('mixingpools', repr(simkw), repr(betakw), repr(contkw)), nontrivial=True); ctx.dist('mixing pools beta')
+        for pool in m.pools:
+            got = float(np.asarray(pool.pars.beta.values))
+            if abs(got - want) > 1e-9 * max(1, want):
+                ctx.violation(f'MixingPools(beta={b} per {bunit}) in a {simkw["unit"]}/{simkw["dt"]} sim, container {contkw}: pool {pool.name} transmits with {got} per step; '
+                              f'the beta compounded over the container step ({step_in_beta_units:.6g} {bunit}s) is {want}', dict(sim=simkw, beta=betakw, container=contkw, pool=pool.name)); break
 
 
 def replay(ctx, rp):
